@@ -21,6 +21,55 @@ def build():
     return child, tracer
 
 
+APP_POINTS = ['solve', 'report', 'member-dtor', 'deleted', 'after-app']
+
+
+def teardown_family(chk):
+    """the real mp::BackendApp owning backend and SignalHandler: every schedule of 1..2 synchronous signals over the
+    teardown points (checks/C15/sigapp.cc); a callback into a backend whose destruction began is a violation"""
+    app = vbuild.build_program('c15_sigapp', 'plain', ['checks/C15/sigapp.cc'], with_libmp=True)
+    scheds = [[(p, g)] for p in APP_POINTS for g in ('INT', 'TERM')]
+    for i, p in enumerate(APP_POINTS):
+        for q in APP_POINTS[i:]:
+            for g in ('INT', 'TERM'):
+                for h in ('INT', 'TERM'):
+                    scheds.append([(p, g), (q, h)])
+    classes = set(); n = 0
+    for sc in scheds:
+        arg = ','.join('%s:%s' % t for t in sc)
+        # two signals at one point are raised in schedule order by the child; same point + same signal raises it twice
+        pr = subprocess.run([app], capture_output=True, text=True, timeout=60,
+                            env={'C15_APP_SCHEDULE': arg, 'PATH': '/usr/bin:/bin', 'LC_ALL': 'C'})
+        n += 1
+        ev = [l for l in pr.stdout.splitlines() if l.strip()]
+        problems = []
+        # after the handler object is destroyed the interrupt count is unspecified (the destructor leaves it at 1): a second
+        # signal raised in that region may be taken as the terminating one
+        may_terminate = len(sc) == 2 and sc[1][0] not in ('solve', 'report')
+        ended = pr.returncode == 0 and ev and ev[-1] == 'E end'
+        if not ended and not (may_terminate and pr.returncode == 1 and ev and ev[-1].startswith('P ')):
+            problems.append('run did not end normally (rc=%s)' % pr.returncode)
+        if 'C dead' in ev: problems.append('callback invoked on a backend whose destruction had begun')
+        live = {'solve', 'report'}
+        for k, l in enumerate(ev):
+            if not l.startswith('P '): continue
+            pt = l.split()[1]
+            nxt = next((j for j in range(k + 1, len(ev)) if ev[j][:2] in ('P ', 'E ', 'S ')), len(ev))
+            calls = [x for x in ev[k + 1:nxt] if x.startswith('C ')]
+            if pt in live and calls != ['C alive']: problems.append('signal at %s: callback calls %r (expected exactly one on the live backend)' % (pt, calls))
+            if pt not in live and calls: problems.append('signal at %s: callback calls %r (expected none)' % (pt, calls))
+        want_stop = any(p == 'solve' for p, _ in sc)
+        if ('S 1' in ev) != want_stop: problems.append('Stop() after the solve point is %s' % ('S 1' in ev))
+        classes.add('app|%s|%s' % ('+'.join(p for p, _ in sc), 'ok' if not problems else 'bad'))
+        for pb in problems:
+            chk.violation('C15 teardown (BackendApp): ' + pb.split(':')[0].split('(')[0].strip() + ' [first point %s]' % sc[0][0],
+                          {'schedule': arg, 'problem': pb, 'events': ev}, {'kind': 'app', 'schedule': arg})
+    chk.set('teardown_schedules', n)
+    chk.set('teardown_observation_classes', len(classes))
+    if n and not any(c.endswith('|ok') for c in classes): chk.broken.append('teardown family: no schedule conforms')
+    return n
+
+
 def windows(child):
     """Address windows from the symbol table of the binary that is actually run."""
     out = subprocess.run(['nm', '-S', '--defined-only', child], capture_output=True, text=True, check=True).stdout
@@ -81,8 +130,10 @@ def main(tier, seed):
     vcheck.absorb(chk, stripped)
     for sig in sorted(best, key=lambda s: best[s]['key']):
         chk.violation(sig, best[sig]['detail'], best[sig]['replay'])
+    n_app = teardown_family(chk)
     c = chk.cov
     vcheck.finalize_classes(chk)
+    c['evaluations'] = c.get('evaluations', 0) + n_app
     c['violating_schedules_by_signature'] = {k[5:]: c.pop(k) for k in list(c) if k.startswith('viol|')}
     c['states'] = c.get('schedule_prefix_states', 0)
     c['distinct_observation_records'] = c['distinct_nontrivial']
@@ -112,7 +163,9 @@ def main(tier, seed):
             'the child\'s ordered event stream. A class is a distinct observation record (compressed event stream + end '
             'status). states = distinct schedule-prefix states (prefix, next point) visited; transitions = single-steps '
             '+ signal deliveries; traces_validated = schedules re-executed twice (once stepped, once free-running after '
-            'the last delivery) with byte-identical observation: every violating schedule and every 16th other.')
+            'the last delivery) with byte-identical observation: every violating schedule and every 16th other. Teardown family: the real '
+            'mp::BackendApp (owning backend and handler) with every schedule of 1..2 self-raised signals over {solve, report, backend member '
+            'destructor, backend storage released, after the driver object is gone}: no callback may reach a backend whose destruction began.')
     chk.set('bounds', {'signals': ['SIGINT', 'SIGTERM'], 'max_deliveries': 3,
                        'singles': 'all points', 'pairs': 'all points',
                        'triples': '>=2 phase-level points, or any two points followed by a phase-level point' if tier == 'thorough'
@@ -139,6 +192,11 @@ def main(tier, seed):
 
 def replay(path):
     r = json.load(open(path))['replay']
+    if r.get('kind') == 'app':
+        app = vbuild.build_program('c15_sigapp', 'plain', ['checks/C15/sigapp.cc'], with_libmp=True)
+        pr = subprocess.run([app], capture_output=True, text=True, env={'C15_APP_SCHEDULE': r['schedule'], 'PATH': '/usr/bin:/bin'})
+        print(pr.stdout)
+        return 1 if 'C dead' in pr.stdout or pr.returncode != 0 else 0
     child, tracer = build()
     args, err = tracer_args(child)
     if err:
